@@ -20,6 +20,8 @@ type RelayAddressGeneratorNone struct {
 	Address string
 
 	Net transport.Net
+
+	listenerPorts relayListenerPorts
 }
 
 // Validate is called on server startup and confirms the RelayAddressGenerator is properly configured.
@@ -76,7 +78,9 @@ func (r *RelayAddressGeneratorNone) AllocateListener(conf AllocateListenerConfig
 		// bind to the same relay address.
 		Control: reuseport.Control,
 	})
-	ln, err := listenConfig.Listen(context.TODO(), conf.Network, tcpAddr.String())
+	ln, err := r.listenerPorts.listen(conf.RequestedPort, func() (net.Listener, error) {
+		return listenConfig.Listen(context.TODO(), conf.Network, tcpAddr.String())
+	})
 	if err != nil {
 		return nil, nil, err
 	}
